@@ -276,113 +276,7 @@ theorem polygon_contains_boundary_cover' (ops : Ops α) (zoom fuel : Nat) (set :
 
 /-! ### the polygon trace bound -/
 
-/-- entry `e` of a ring trace has its tile in `set`, and its column does not wrap when incremented -/
-def CovEntryIn (zoom : Nat) (set : List Tile) (e : Nat × Nat) : Prop :=
-  (⟨e.1, e.2, zoom⟩ : Tile) ∈ set ∧ e.1 + 1 < 2 ^ 32
-
-/-- the set has grown from `set0` and every ring-trace entry is in it -/
-def CovGood (zoom : Nat) (set0 : List Tile) (set : List Tile) (ring : Option (List (Nat × Nat))) : Prop :=
-  (∀ t ∈ set0, t ∈ set) ∧ ∀ r, ring = some r → ∀ e ∈ r, CovEntryIn zoom set e
-
-theorem cov_emit_good (ops : Ops α) (hU : ∀ v, ops.toU32 v + 1 < 2 ^ 32) (zoom : Nat) (set0 : List Tile)
-    (s : LState α) (h : CovGood zoom set0 s.set s.ring) :
-    CovGood zoom set0 (LState.emit ops zoom s).set (LState.emit ops zoom s).ring := by
-  obtain ⟨h1, h2⟩ := h
-  refine ⟨fun t ht => List.mem_cons_of_mem _ (h1 t ht), ?_⟩
-  intro r hr e he
-  cases hring : s.ring with
-  | none => simp only [LState.emit, hring] at hr; cases hr
-  | some r0 =>
-    simp only [LState.emit, hring] at hr ⊢
-    have hold : ∀ e ∈ r0, CovEntryIn zoom (⟨ops.toU32 s.x, ops.toU32 s.y, zoom⟩ :: s.set) e :=
-      fun e he => ⟨List.mem_cons_of_mem _ (h2 r0 hring e he).1, (h2 r0 hring e he).2⟩
-    split at hr
-    · cases hr
-      rcases List.mem_append.1 he with he | he
-      · exact hold e he
-      · rw [List.mem_singleton] at he
-        subst he
-        exact ⟨List.mem_cons_self .., hU _⟩
-    · cases hr
-      exact hold e he
-
-theorem cov_walk_good (ops : Ops α) (hU : ∀ v, ops.toU32 v + 1 < 2 ^ 32) (zoom : Nat) (set0 : List Tile)
-    (sx sy tdx tdy : α) (fuel : Nat) :
-    ∀ (tMaxX tMaxY : Option α) (s s' : LState α),
-      walk ops zoom sx sy tdx tdy fuel tMaxX tMaxY s = some s' →
-      CovGood zoom set0 s.set s.ring → CovGood zoom set0 s'.set s'.ring := by
-  induction fuel with
-  | zero =>
-    intro tMaxX tMaxY s s' h hg
-    rw [walk] at h
-    split at h
-    · cases h
-    · cases h; exact hg
-  | succ fuel ih =>
-    intro tMaxX tMaxY s s' h hg
-    rw [walk] at h
-    split at h
-    · split at h
-      · exact ih _ _ _ _ h (cov_emit_good ops hU zoom set0 _ hg)
-      · exact ih _ _ _ _ h (cov_emit_good ops hU zoom set0 _ hg)
-    · cases h; exact hg
-
-theorem cov_segment_good (ops : Ops α) (hU : ∀ v, ops.toU32 v + 1 < 2 ^ 32) (zoom fuel : Nat) (set0 : List Tile)
-    (s s' : LState α) (start stop : Pt α)
-    (h : segment ops zoom fuel s start stop = some s')
-    (hg : CovGood zoom set0 s.set s.ring) : CovGood zoom set0 s'.set s'.ring := by
-  unfold segment at h
-  simp only [] at h
-  split at h
-  · cases h; exact hg
-  · refine cov_walk_good ops hU zoom set0 _ _ _ _ fuel _ _ _ _ h ?_
-    split
-    · exact cov_emit_good ops hU zoom set0 _ hg
-    · exact hg
-
-theorem cov_lineSegs_good (ops : Ops α) (hU : ∀ v, ops.toU32 v + 1 < 2 ^ 32) (zoom fuel : Nat) (set0 : List Tile)
-    (pts : List (Pt α)) :
-    ∀ (s s' : LState α), lineSegs ops zoom fuel s pts = some s' →
-      CovGood zoom set0 s.set s.ring → CovGood zoom set0 s'.set s'.ring := by
-  induction pts with
-  | nil => intro s s' h hg; simp only [lineSegs] at h; cases h; exact hg
-  | cons a l ih =>
-    intro s s' h hg
-    cases l with
-    | nil => simp only [lineSegs] at h; cases h; exact hg
-    | cons b l' =>
-      rw [lineSegs] at h
-      cases hseg : segment ops zoom fuel s a b with
-      | none => rw [hseg] at h; cases h
-      | some s1 =>
-        rw [hseg] at h
-        exact ih s1 s' h (cov_segment_good ops hU zoom fuel set0 s s1 a b hseg hg)
-
-theorem cov_line_good (ops : Ops α) (hU : ∀ v, ops.toU32 v + 1 < 2 ^ 32) (zoom fuel : Nat)
-    (set : List Tile) (pts : List (Pt α)) (set' : List Tile) (ring : Option (List (Nat × Nat)))
-    (h : line ops zoom fuel set pts (some []) = .ok (set', ring)) :
-    (∀ t ∈ set, t ∈ set') ∧ ∀ e ∈ ring.getD [], CovEntryIn zoom set' e := by
-  unfold line at h
-  split at h
-  · cases h
-  · rename_i s hs
-    have hg : CovGood zoom set s.set s.ring := by
-      refine cov_lineSegs_good ops hU zoom fuel set pts _ s hs ⟨fun t ht => ht, ?_⟩
-      intro r hr e he
-      cases hr
-      cases he
-    split at h
-    · cases h
-      exact ⟨hg.1, fun e he => by cases he⟩
-    · rename_i r hr
-      split at h
-      · cases h
-        exact ⟨hg.1, fun e he => hg.2 r hr e he⟩
-      · split at h
-        · cases h
-          exact ⟨hg.1, fun e he => hg.2 r hr e (List.dropLast_subset _ he)⟩
-        · cases h
-          exact ⟨hg.1, fun e he => hg.2 r hr e he⟩
+-- (the membership invariant of the ring trace and `polygon_within_trace_bound'` live in `C14Unions`)
 
 theorem cov_ringIntersections_subset (ring : List (Nat × Nat)) (e : Nat × Nat)
     (h : e ∈ ringIntersections ring) : e ∈ ring := by
@@ -393,33 +287,6 @@ theorem cov_ringIntersections_subset (ring : List (Nat × Nat)) (e : Nat × Nat)
     rw [List.getD_eq_getElem?_getD, List.getElem?_eq_getElem hi]
     exact List.getElem_mem hi
   · cases h
-
-theorem cov_traceRings_good (ops : Ops α) (hU : ∀ v, ops.toU32 v + 1 < 2 ^ 32) (zoom fuel : Nat)
-    (rings : List (List (Pt α))) :
-    ∀ (set : List Tile) (inter : List (Nat × Nat)) (set' : List Tile) (inter' : List (Nat × Nat)),
-      traceRings ops zoom fuel set inter rings = .ok (set', inter') →
-      (∀ e ∈ inter, CovEntryIn zoom set e) →
-      (∀ t ∈ set, t ∈ set') ∧ ∀ e ∈ inter', CovEntryIn zoom set' e := by
-  induction rings with
-  | nil =>
-    intro set inter set' inter' h hin
-    rw [traceRings] at h
-    cases h
-    exact ⟨fun t ht => ht, hin⟩
-  | cons r rs ih =>
-    intro set inter set' inter' h hin
-    rw [traceRings] at h
-    split at h
-    · rename_i set1 ring hl
-      obtain ⟨hsub, hent⟩ := cov_line_good ops hU zoom fuel set r set1 ring hl
-      have := ih set1 _ set' inter' h (by
-        intro e he
-        rcases List.mem_append.1 he with he | he
-        · exact ⟨hsub _ (hin e he).1, (hin e he).2⟩
-        · exact hent e (cov_ringIntersections_subset _ e he))
-      exact ⟨fun t ht => this.1 t (hsub t ht), this.2⟩
-    · cases h
-    · cases h
 
 theorem cov_fillPairs_mem (zoom : Nat) (l : List (Nat × Nat)) (t : Tile) (h : t ∈ fillPairs zoom l) :
     t.z = zoom ∧ ∃ a ∈ l, ∃ b ∈ l, t.y = a.2 ∧ add32 a.1 1 ≤ t.x ∧ t.x < b.1 := by
@@ -444,34 +311,6 @@ theorem cov_fillPairs_mem (zoom : Nat) (l : List (Nat × Nat)) (t : Tile) (h : t
 
 theorem cov_mem_sortYX (l : List (Nat × Nat)) (e : Nat × Nat) (h : e ∈ sortYX l) : e ∈ l :=
   (List.mergeSort_perm l _).mem_iff.1 h
-
-theorem polygon_within_trace_bound' (ops : Ops α) (hU : ∀ v, ops.toU32 v + 1 < 2 ^ 32) (zoom fuel : Nat)
-    (rings : List (List (Pt α))) (S : List Tile) (h : polygon ops zoom fuel [] rings = .ok S) :
-    ∃ set' inter, traceRings ops zoom fuel [] [] rings = .ok (set', inter) ∧
-      ∀ t ∈ S, t ∈ set' ∨
-        ∃ a b, a ∈ set' ∧ b ∈ set' ∧ t.z = zoom ∧ t.y = a.y ∧ a.x < t.x ∧ t.x < b.x := by
-  unfold polygon at h
-  split at h
-  · rename_i set' inter heq
-    split at h
-    · cases h
-    · cases h
-      refine ⟨set', inter, heq, ?_⟩
-      obtain ⟨-, hent⟩ := cov_traceRings_good ops hU zoom fuel rings [] [] set' inter heq
-        (fun e he => by cases he)
-      intro t ht
-      rcases List.mem_append.1 ht with ht | ht
-      · right
-        obtain ⟨hz, a, ha, b, hb, hy, hlo, hhi⟩ := cov_fillPairs_mem zoom _ t ht
-        have hA := hent a (cov_mem_sortYX _ _ ha)
-        have hB := hent b (cov_mem_sortYX _ _ hb)
-        refine ⟨⟨a.1, a.2, zoom⟩, ⟨b.1, b.2, zoom⟩, hA.1, hB.1, hz, hy, ?_, hhi⟩
-        have := add32_eq hA.2
-        show a.1 < t.x
-        omega
-      · exact Or.inl ht
-  · cases h
-  · cases h
 
 end covers
 end Orb.TileCover
